@@ -502,3 +502,58 @@ Definition pack_mixed (ktf : N -> ktype) (c : cfg) (spar : list N) (payload send
   | JweAnon => pack (with_kt c (match rcpts with r :: _ => ktf r | [] => kt_of c end)) spar payload sender rcpts rn
   | _ => pack c spar payload sender rcpts rn
   end.
+
+(* ---------- the Crypto.UnwrapKey calls of one Unpack (for the structural tie of the unpack side) ---------- *)
+(* one attempt: the alg label handed to UnwrapKey is an ECDH-1PU one; a sender key handle (and the tag) was passed;
+   the call returned a key *)
+Record attempt := mkatt { at_1pu : bool; at_sender : bool; at_ok : bool }.
+Definition is_some {A} (o : option A) : bool := match o with Some _ => true | None => false end.
+
+Fixpoint attempts_cek (v : variant) (party : list N) (sender : option N) (tag : term) (ws : list recwk) : list attempt :=
+  match ws with
+  | [] => []
+  | w :: rest =>
+      match wk_kid w with
+      | None => attempts_cek v party sender tag rest
+      | Some kr =>
+          match resolve v kr with
+          | RKey k => if mem k party then
+                        let ok := is_some (unwrap_one k sender tag w) in
+                        mkatt (alg_1pu w) (is_some sender) ok :: (if ok then [] else attempts_cek v party sender tag rest)
+                      else attempts_cek v party sender tag rest
+          | RNil => []
+          | RErr | RFmt => attempts_cek v party sender tag rest
+          end
+      end
+  end.
+
+Definition attempts_jwe (v : variant) (party : list N) (j : jwe) : list attempt :=
+  match j_prot j with
+  | None => []
+  | Some prot =>
+      match find_owned v party (single_rec (j_recs j)) prot (j_recs j), p_enc prot with
+      | Ok _, Some _ =>
+          match (match jwe_skid prot (j_recs j) with
+                 | None => Some None
+                 | Some s => match resolve v s with RKey k => Some (Some k) | _ => None end
+                 end) with
+          | None => []
+          | Some sender =>
+              match build_all (single_rec (j_recs j)) prot (j_recs j) with
+              | Ok ws => if sender_needs_1pu v sender ws then [] else attempts_cek v party sender (j_tag j) ws
+              | _ => []
+              end
+          end
+      | _, _ => []
+      end
+  end.
+Definition attempts (v : variant) (party : list N) (w : wire) : list attempt :=
+  match w with WJwe j => attempts_jwe v party j | _ => [] end.
+Definition attempt_eqb (a b : attempt) : bool :=
+  Bool.eqb (at_1pu a) (at_1pu b) && Bool.eqb (at_sender a) (at_sender b) && Bool.eqb (at_ok a) (at_ok b).
+Fixpoint attempts_eqb (a b : list attempt) : bool :=
+  match a, b with
+  | [], [] => true
+  | x :: a', y :: b' => attempt_eqb x y && attempts_eqb a' b'
+  | _, _ => false
+  end.
